@@ -36,6 +36,9 @@ impl Ity {
             "u32" => Some(Ity::U32),
             "u64" => Some(Ity::U64),
             "usize" => Some(Ity::Usz),
+            // signed integers are their bit patterns (only casts and from_le_bytes produce them in the translated code)
+            "i32" => Some(Ity::U32),
+            "i64" => Some(Ity::U64),
             _ => None,
         }
     }
@@ -50,12 +53,52 @@ enum Ty {
     Unit,
     Bool,
     OptSlice,        // Option<&[u8]>
+    Vec,             // a 128-bit vector (the wrapper type or the raw SIMD type)
+    TupVec(usize),   // a tuple of vectors
+}
+
+thread_local! {
+    /// names of the types that are 128-bit vectors in the file being translated (wrapper and raw type)
+    static VEC_TYS: std::cell::RefCell<Vec<String>> = std::cell::RefCell::new(Vec::new());
+}
+fn is_vec_ty_name(n: &str) -> bool {
+    VEC_TYS.with(|v| v.borrow().iter().any(|x| x == n))
 }
 
 #[derive(Clone)]
 struct Sig {
     params: Vec<(String, Ty)>,
     ret: Ty,
+}
+
+/// does the function carry, or contain anywhere in its body, a conditional-compilation attribute?  (The translation describes ONE
+/// body; a `#[cfg(..)]` on the function, on a statement, a block, an expression or a local would make the compiled code differ
+/// between build configurations without the translation showing it.)
+pub struct CfgScan {
+    pub found: Vec<String>,
+}
+impl<'ast> syn::visit::Visit<'ast> for CfgScan {
+    fn visit_attribute(&mut self, a: &'ast syn::Attribute) {
+        if a.path().is_ident("cfg") || a.path().is_ident("cfg_attr") {
+            self.found.push(a.meta.to_token_stream().to_string());
+        }
+        syn::visit::visit_attribute(self, a);
+    }
+    fn visit_macro(&mut self, m: &'ast syn::Macro) {
+        if m.path.is_ident("cfg") {
+            self.found.push(format!("cfg!({})", m.tokens));
+        }
+        syn::visit::visit_macro(self, m);
+    }
+}
+pub fn cfg_inside(attrs: &[syn::Attribute], block: &syn::Block) -> Vec<String> {
+    use syn::visit::Visit;
+    let mut sc = CfgScan { found: Vec::new() };
+    for a in attrs {
+        sc.visit_attribute(a);
+    }
+    sc.visit_block(block);
+    sc.found
 }
 
 fn q(s: &str) -> String {
@@ -78,6 +121,9 @@ fn ty_of(t: &syn::Type, key_is_arr: bool) -> Option<Ty> {
             if name == "bool" {
                 return Some(Ty::Bool);
             }
+            if is_vec_ty_name(&name) {
+                return Some(Ty::Vec);
+            }
             if name == "Option" && toks(t).replace("'a ", "") == "Option < & [u8] >" {
                 return Some(Ty::OptSlice);
             }
@@ -95,6 +141,9 @@ fn ty_of(t: &syn::Type, key_is_arr: bool) -> Option<Ty> {
         syn::Type::Tuple(t) => {
             if t.elems.is_empty() {
                 return Some(Ty::Unit);
+            }
+            if t.elems.iter().all(|e| ty_of(e, key_is_arr) == Some(Ty::Vec)) {
+                return Some(Ty::TupVec(t.elems.len()));
             }
             let mut v = Vec::new();
             for e in &t.elems {
@@ -124,6 +173,21 @@ fn arr_len(t: &syn::Type) -> Option<usize> {
         syn::Type::Paren(p) => arr_len(&p.elem),
         _ => None,
     }
+}
+
+#[derive(Clone, Copy, PartialEq)]
+pub enum Owner {
+    Hash,
+    Wrap,
+    Free,
+}
+/// description of a SIMD backend file: hasher type, vector wrapper type, raw vector type names
+pub struct Multi {
+    pub hash_ty: String,
+    pub wrap_ty: String,
+    pub vfields: Vec<String>,                       // vector fields of the hasher
+    pub wrap_traits: HashMap<(String, String), String>, // (Trait, method) -> qualified name
+    pub wrap_mut: std::collections::HashSet<String>,  // qualified names of wrapper methods taking &mut self
 }
 
 /// a field of the hasher that is itself a struct with translated methods (self.buffer : HashPacket)
@@ -183,6 +247,12 @@ struct Cx<'a> {
     sfields: &'a HashMap<String, Ity>,
     consts: &'a HashMap<String, u128>,
     ret_opt: bool,
+    multi: Option<&'a Multi>,                  // a file with a hasher, a vector wrapper type and free functions
+    owner: Owner,
+    vvars: std::collections::HashSet<String>,   // local vector variables
+    tupvars: std::collections::HashSet<String>, // local tuples of vectors
+    vec_alias: HashMap<String, String>,         // let v = &mut self.<vector field>
+    ret_tupv: bool,                             // the function returns a tuple of vectors: results go through %ret
     valias: HashMap<String, (String, String)>, // for &x in arr: x stands for arr[index variable]
     arr_alias: HashMap<String, String>,         // for a in [&x, &y]: a stands for the array x, then y
     self_alias: Option<String>,                 // let mut h = <Self> { .. }: h is self
@@ -196,6 +266,7 @@ struct Cx<'a> {
     views: std::collections::HashSet<String>,
     zips: HashMap<String, (String, String, String, String)>, // let z = dst[dlo..].iter_mut().zip(&src[slo..])
     ret_arr: bool,    // the function returns an array: `return e;` and the tail assign the variable %ret
+    ret_scalar: Option<Ity>, // the function returns an integer and contains `return`: results go through %ret
 }
 
 impl<'a> Cx<'a> {
@@ -346,7 +417,7 @@ impl<'a> Cx<'a> {
             syn::Expr::Binary(b) => {
                 use syn::BinOp::*;
                 match &b.op {
-                    BitAnd(_) | BitOr(_) | BitXor(_) | Add(_) | Sub(_) => {
+                    BitAnd(_) | BitOr(_) | BitXor(_) | Add(_) | Sub(_) | Rem(_) => {
                         // the two operands have the same type; an unsuffixed literal takes the other's
                         let (l0, tl0) = self.expr(&b.left, expect);
                         let (r, tr) = self.expr(&b.right, tl0.or(expect));
@@ -361,6 +432,7 @@ impl<'a> Cx<'a> {
                             BitOr(_) => format!("(EOr {} {})", l, r),
                             BitXor(_) => format!("(EXor {} {})", l, r),
                             Add(_) => format!("(EAdd {} {} {})", t.coq(), l, r),
+                            Rem(_) => format!("(ERem {} {})", l, r),
                             _ => format!("(ESub {} {} {})", t.coq(), l, r),
                         };
                         (s, Some(t))
@@ -449,6 +521,41 @@ impl<'a> Cx<'a> {
                     Some(ti) if to.bits() <= ti.bits() => (format!("(ETrunc {} {})", to.coq(), x), Some(to)),
                     Some(_) => (format!("(EWiden {})", x), Some(to)),
                     None => Self::unsupported(e),
+                }
+            }
+            syn::Expr::Call(c) if self.multi.is_some() && toks(&c.func).replace(' ', "").starts_with("wasm32::") => {
+                // a scalar-valued SIMD primitive of vector arguments
+                let name = toks(&c.func).replace(' ', "");
+                let mut vs = Vec::new();
+                for a in &c.args {
+                    if !self.is_vec(a) {
+                        return Self::unsupported(e);
+                    }
+                    let v = match self.vec_place(a) {
+                        Some(p) => p,
+                        None => {
+                            let x = self.vx(a);
+                            let tmp = self.fresh("v");
+                            self.vvars.insert(tmp.clone());
+                            self.pre.push(format!("SLetV {} {}", q(&tmp), x));
+                            tmp
+                        }
+                    };
+                    vs.push(q(&v));
+                }
+                (format!("(EVPrim {} [{}])", q(&name), vs.join("; ")), Some(Ity::U64))
+            }
+            syn::Expr::Call(c) if self.multi.is_some() && self.callee_of_call(c).is_some() => {
+                let qn = self.callee_of_call(c).unwrap();
+                let args: Vec<&syn::Expr> = c.args.iter().collect();
+                match self.call(&qn, &args) {
+                    Some((txt, Ty::Int(i))) => {
+                        let tmp = self.fresh("c");
+                        self.vars.insert(tmp.clone(), Ty::Int(i));
+                        self.pre.push(format!("SCall (Some {}) {}", q(&tmp), txt));
+                        (format!("(EVar {})", q(&tmp)), Some(i))
+                    }
+                    _ => Self::unsupported(e),
                 }
             }
             syn::Expr::Call(c) => {
@@ -567,13 +674,32 @@ impl<'a> Cx<'a> {
             return None;
         }
         let mut out = Vec::new();
-        for ((_, pt), a) in sig.params.iter().zip(args) {
+        let recv_mut = self.multi.map(|m| m.wrap_mut.contains(name)).unwrap_or(false);
+        for (k, ((_, pt), a)) in sig.params.iter().zip(args).enumerate() {
+            if k == 0 && recv_mut {
+                // &mut self of a wrapper method: the vector is passed by reference
+                out.push(format!("AVecRef {}", q(&self.vec_place(a)?)));
+                continue;
+            }
             match pt {
                 Ty::Int(i) => {
                     let (x, _) = self.expr(a, Some(*i));
                     out.push(format!("AVal {}", x));
                 }
+                Ty::Idx if self.multi.is_some() && self.idx(a).is_none() => {
+                    // a usize passed by value in a SIMD file: a scalar
+                    let (x, _) = self.expr(a, Some(Ity::Usz));
+                    out.push(format!("AVal {}", x));
+                }
                 Ty::Idx => out.push(format!("AK {}", self.idx(a)?)),
+                Ty::Vec => {
+                    let v = self.vx(a);
+                    out.push(format!("AVec {}", v));
+                }
+                Ty::TupVec(_) => {
+                    let t = self.tupv_arg(a)?;
+                    out.push(format!("ATupV {}", q(&t)));
+                }
                 Ty::Arr(_) => {
                     if let Some((n, _)) = self.array_name(a) {
                         out.push(format!("AArr {}", q(&n)));
@@ -705,8 +831,21 @@ impl<'a> Cx<'a> {
         }
         if let syn::Expr::Binary(b) = e {
             use syn::BinOp::*;
+            // a.len() >= k  /  a.len() > k  with a literal k, in the SIMD files: decided on the length itself
+            if self.multi.is_some() && matches!(&b.op, Ge(_) | Gt(_)) {
+                if let (syn::Expr::MethodCall(l), Some((k, _))) = (&*b.left, Self::lit(&b.right)) {
+                    if l.method == "len" && l.args.is_empty() {
+                        if let Some((x, _)) = self.array_name(&l.receiver) {
+                            let c = if matches!(&b.op, Ge(_)) { "CLenGe" } else { "CLenGtK" };
+                            return Some(format!("({} {} {}%nat)", c, q(&x), k));
+                        }
+                    }
+                }
+            }
+            let ge = matches!(&b.op, Ge(_));
             let name = match &b.op {
                 Le(_) => "CLe",
+                Ge(_) => "CLe",
                 Ne(_) => "CNe",
                 Eq(_) => "CEq",
                 Gt(_) => "CGt",
@@ -728,6 +867,9 @@ impl<'a> Cx<'a> {
             let l = if tl.is_none() { self.expr(&b.left, tr).0 } else { l0 };
             if tl.or(tr).is_none() {
                 return None;
+            }
+            if ge {
+                return Some(format!("(CLe {} {})", r, l)); // a >= b  is  b <= a
             }
             return Some(format!("({} {} {})", name, l, r));
         }
@@ -794,6 +936,251 @@ impl<'a> Cx<'a> {
         Some((format!("{} [{}] [{}]", q(&format!("{}.{}", sub.field, m.method)), out.join("; "), fmap.join("; ")), sig.ret.clone()))
     }
 
+    // ------------------------------------------------------------------ vectors (SIMD backend files)
+    fn qual(&self, owner: Owner, name: &str) -> String {
+        match (self.multi, owner) {
+            (Some(m), Owner::Hash) => format!("{}::{}", m.hash_ty, name),
+            (Some(m), Owner::Wrap) => format!("{}::{}", m.wrap_ty, name),
+            _ => name.to_string(),
+        }
+    }
+
+    fn vec_place(&self, e: &syn::Expr) -> Option<String> {
+        // a vector-valued place: local vector, self.<vector field>, `self` / `self.0` inside the wrapper, aliases, x.0, *x
+        let m = self.multi?;
+        match e {
+            syn::Expr::Paren(p) => self.vec_place(&p.expr),
+            syn::Expr::Group(p) => self.vec_place(&p.expr),
+            syn::Expr::Reference(r) => self.vec_place(&r.expr),
+            syn::Expr::Unary(u) if matches!(u.op, syn::UnOp::Deref(_)) => self.vec_place(&u.expr),
+            syn::Expr::Path(p) if p.path.segments.len() == 1 => {
+                let n = p.path.segments[0].ident.to_string();
+                if let Some(t) = self.vec_alias.get(&n) {
+                    return Some(t.clone());
+                }
+                if self.vvars.contains(&n) || (n == "self" && self.owner == Owner::Wrap) {
+                    return Some(n);
+                }
+                None
+            }
+            syn::Expr::Field(f) => {
+                if let syn::Member::Unnamed(i) = &f.member {
+                    if i.index == 0 {
+                        return self.vec_place(&f.base);
+                    }
+                }
+                if let (syn::Expr::Path(b), syn::Member::Named(mm)) = (&*f.base, &f.member) {
+                    if b.path.is_ident("self") && self.owner == Owner::Hash && m.vfields.contains(&mm.to_string()) {
+                        return Some(format!("self.{}", mm));
+                    }
+                }
+                None
+            }
+            _ => None,
+        }
+    }
+
+    fn is_vec(&self, e: &syn::Expr) -> bool {
+        let m = match self.multi {
+            Some(m) => m,
+            None => return false,
+        };
+        if self.vec_place(e).is_some() {
+            return true;
+        }
+        match e {
+            syn::Expr::Paren(p) => self.is_vec(&p.expr),
+            syn::Expr::Reference(r) => self.is_vec(&r.expr),
+            syn::Expr::Unary(u) if matches!(u.op, syn::UnOp::Deref(_)) => self.is_vec(&u.expr),
+            syn::Expr::Field(f) => matches!(&f.member, syn::Member::Unnamed(i) if i.index == 0) && self.is_vec(&f.base),
+            syn::Expr::Binary(b) => self.is_vec(&b.left) || self.is_vec(&b.right),
+            syn::Expr::Call(c) => {
+                let t = toks(&c.func).replace(' ', "");
+                if t == m.wrap_ty || t == format!("{}::from", m.wrap_ty) || t == "Self::from" {
+                    return true;
+                }
+                self.callee_of_call(c).and_then(|n| self.sigs.get(&n).map(|s| s.ret == Ty::Vec)).unwrap_or(false)
+                    || (t.starts_with("wasm32::") && !t.contains("extract_lane"))
+            }
+            syn::Expr::MethodCall(mc) => {
+                if self.is_vec(&mc.receiver) {
+                    let n = self.qual(Owner::Wrap, &mc.method.to_string());
+                    return self.sigs.get(&n).map(|s| s.ret == Ty::Vec).unwrap_or(false);
+                }
+                false
+            }
+            _ => false,
+        }
+    }
+
+    /// qualified name of the function a path call refers to (multi mode)
+    fn callee_of_call(&self, c: &syn::ExprCall) -> Option<String> {
+        let m = self.multi?;
+        if let syn::Expr::Path(p) = &*c.func {
+            let segs: Vec<String> = p.path.segments.iter().map(|s| s.ident.to_string()).collect();
+            if segs.len() == 1 {
+                return if self.sigs.contains_key(&segs[0]) { Some(segs[0].clone()) } else { None };
+            }
+            if segs.len() == 2 {
+                let owner = if segs[0] == m.hash_ty || (segs[0] == "Self" && self.owner == Owner::Hash) {
+                    Owner::Hash
+                } else if segs[0] == m.wrap_ty || (segs[0] == "Self" && self.owner == Owner::Wrap) {
+                    Owner::Wrap
+                } else {
+                    return None;
+                };
+                if owner == Owner::Wrap && segs[1] == "default" {
+                    return m.wrap_traits.get(&("Default".to_string(), "default".to_string())).cloned();
+                }
+                let n = self.qual(owner, &segs[1]);
+                return if self.sigs.contains_key(&n) { Some(n) } else { None };
+            }
+        }
+        None
+    }
+
+    /// scalar argument of a SIMD primitive: a literal or a variable (anything else is named first)
+    fn satom(&mut self, e: &syn::Expr) -> String {
+        if let Some((v, _)) = Self::lit(e) {
+            return format!("SALit {}", v);
+        }
+        let (x, t) = self.expr(e, None);
+        if let Some(name) = x.strip_prefix("(EVar ").and_then(|r| r.strip_suffix(")")) {
+            return format!("SAVar {}", name);
+        }
+        let tmp = self.fresh("s");
+        self.vars.insert(tmp.clone(), Ty::Int(t.unwrap_or(Ity::U64)));
+        self.pre.push(format!("SLet {} {}", q(&tmp), x));
+        format!("SAVar {}", q(&tmp))
+    }
+
+    /// a vector-valued call of a function of the file: named, the name returned
+    fn vec_call_tmp(&mut self, qualified: &str, args: Vec<String>) -> String {
+        let tmp = self.fresh("v");
+        self.vvars.insert(tmp.clone());
+        self.pre.push(format!("SCall (Some {}) {} [{}]", q(&tmp), q(qualified), args.join("; ")));
+        tmp
+    }
+
+    /// translate a vector-valued expression
+    fn vx(&mut self, e: &syn::Expr) -> String {
+        let m = match self.multi {
+            Some(m) => m,
+            None => return format!("(XV {})", q("?")),
+        };
+        if let Some(p) = self.vec_place(e) {
+            return format!("(XV {})", q(&p));
+        }
+        match e {
+            syn::Expr::Paren(p) => self.vx(&p.expr),
+            syn::Expr::Group(p) => self.vx(&p.expr),
+            syn::Expr::Reference(r) => self.vx(&r.expr),
+            syn::Expr::Unary(u) if matches!(u.op, syn::UnOp::Deref(_)) => self.vx(&u.expr),
+            syn::Expr::Field(f) if matches!(&f.member, syn::Member::Unnamed(i) if i.index == 0) => self.vx(&f.base),
+            syn::Expr::Binary(b) => {
+                use syn::BinOp::*;
+                let (tr, me) = match &b.op {
+                    Add(_) => ("Add", "add"),
+                    BitXor(_) => ("BitXor", "bitxor"),
+                    BitOr(_) => ("BitOr", "bitor"),
+                    BitAnd(_) => ("BitAnd", "bitand"),
+                    _ => return format!("(XPrim {} [] [])", q(&format!("unsupported: {}", toks(e)))),
+                };
+                match m.wrap_traits.get(&(tr.to_string(), me.to_string())).cloned() {
+                    Some(qn) => {
+                        let a = self.vx(&b.left);
+                        let c = self.vx(&b.right);
+                        let t = self.vec_call_tmp(&qn, vec![format!("AVec {}", a), format!("AVec {}", c)]);
+                        format!("(XV {})", q(&t))
+                    }
+                    None => format!("(XPrim {} [] [])", q(&format!("unsupported: {}", toks(e)))),
+                }
+            }
+            syn::Expr::Call(c) => {
+                let t = toks(&c.func).replace(' ', "");
+                // the wrapper's tuple-struct constructor and From::from are the identity on the vector (the From impls are
+                // shown to be identities by the VecLite tie of the same source)
+                if t == m.wrap_ty && c.args.len() == 1 {
+                    return self.vx(&c.args[0]);
+                }
+                if (t == format!("{}::from", m.wrap_ty) || t == "Self::from") && c.args.len() == 1 {
+                    return match m.wrap_traits.get(&("From".to_string(), "from".to_string())).cloned() {
+                        Some(qn) => {
+                            let a = self.vx(&c.args[0]);
+                            let tmp = self.vec_call_tmp(&qn, vec![format!("AVec {}", a)]);
+                            format!("(XV {})", q(&tmp))
+                        }
+                        None => format!("(XPrim {} [] [])", q(&format!("unsupported: {}", toks(e)))),
+                    };
+                }
+                if t.starts_with("wasm32::") {
+                    let mut vs = Vec::new();
+                    let mut ss = Vec::new();
+                    for a in &c.args {
+                        if self.is_vec(a) {
+                            vs.push(self.vx(a));
+                        } else {
+                            ss.push(self.satom(a));
+                        }
+                    }
+                    return format!("(XPrim {} [{}] [{}])", q(&t), vs.join("; "), ss.join("; "));
+                }
+                if let Some(qn) = self.callee_of_call(c) {
+                    let args: Vec<&syn::Expr> = c.args.iter().collect();
+                    if let Some((txt, Ty::Vec)) = self.call(&qn, &args) {
+                        let tmp = self.fresh("v");
+                        self.vvars.insert(tmp.clone());
+                        self.pre.push(format!("SCall (Some {}) {}", q(&tmp), txt));
+                        return format!("(XV {})", q(&tmp));
+                    }
+                }
+                format!("(XPrim {} [] [])", q(&format!("unsupported: {}", toks(e))))
+            }
+            syn::Expr::MethodCall(mc) if self.is_vec(&mc.receiver) => {
+                let qn = self.qual(Owner::Wrap, &mc.method.to_string());
+                let mut args: Vec<&syn::Expr> = vec![&*mc.receiver];
+                args.extend(mc.args.iter());
+                if let Some((txt, Ty::Vec)) = self.call(&qn, &args) {
+                    let tmp = self.fresh("v");
+                    self.vvars.insert(tmp.clone());
+                    self.pre.push(format!("SCall (Some {}) {}", q(&tmp), txt));
+                    return format!("(XV {})", q(&tmp));
+                }
+                format!("(XPrim {} [] [])", q(&format!("unsupported: {}", toks(e))))
+            }
+            _ => format!("(XPrim {} [] [])", q(&format!("unsupported: {}", toks(e)))),
+        }
+    }
+
+    /// a tuple of vectors as an argument: a tuple variable, or a tuple literal named first
+    fn tupv_arg(&mut self, e: &syn::Expr) -> Option<String> {
+        match e {
+            syn::Expr::Paren(p) => self.tupv_arg(&p.expr),
+            syn::Expr::Path(p) if p.path.segments.len() == 1 && self.tupvars.contains(&p.path.segments[0].ident.to_string()) => {
+                Some(p.path.segments[0].ident.to_string())
+            }
+            syn::Expr::Tuple(t) if t.elems.iter().all(|x| self.is_vec(x)) => {
+                let es: Vec<String> = t.elems.iter().map(|x| self.vx(x)).collect();
+                let tmp = self.fresh("t");
+                self.tupvars.insert(tmp.clone());
+                self.pre.push(format!("SLetTupV {} [{}]", q(&tmp), es.join("; ")));
+                Some(tmp)
+            }
+            syn::Expr::Call(c) => {
+                let qn = self.callee_of_call(c)?;
+                let args: Vec<&syn::Expr> = c.args.iter().collect();
+                if let Some((txt, Ty::TupVec(_))) = self.call(&qn, &args) {
+                    let tmp = self.fresh("t");
+                    self.tupvars.insert(tmp.clone());
+                    self.pre.push(format!("SCall (Some {}) {}", q(&tmp), txt));
+                    return Some(tmp);
+                }
+                None
+            }
+            _ => None,
+        }
+    }
+
     fn flush(&mut self, out: &mut Vec<String>, s: String) {
         out.append(&mut self.pre);
         out.push(s);
@@ -801,6 +1188,23 @@ impl<'a> Cx<'a> {
 
     /// `%ret = <array expression>` (functions returning an array)
     fn set_ret(&mut self, e: &syn::Expr, out: &mut Vec<String>) {
+        if let Some(t) = self.ret_scalar {
+            let (x, _) = self.expr(e, Some(t));
+            let st = format!("SLet \"%ret\" {}", x);
+            self.flush(out, st);
+            return;
+        }
+        if self.ret_tupv {
+            match e {
+                syn::Expr::Tuple(t) if t.elems.iter().all(|x| self.is_vec(x)) => {
+                    let es: Vec<String> = t.elems.iter().map(|x| self.vx(x)).collect();
+                    let st = format!("SLetTupV \"%ret\" [{}]", es.join("; "));
+                    self.flush(out, st);
+                }
+                _ => out.push(format!("SUnsupported {}", q(&toks(e)))),
+            }
+            return;
+        }
         match self.array_name(e) {
             Some((n, _)) => out.push(format!("SCopyArr \"%ret\" {}", q(&n))),
             None => out.push(format!("SUnsupported {}", q(&toks(e)))),
@@ -816,7 +1220,7 @@ impl<'a> Cx<'a> {
         let n = stmts.len();
         for (k, st) in stmts.iter().enumerate() {
             // if c { ..; return e; }  <rest>   in a function returning an array:  SIf c (..; %ret = e) (<rest>; %ret = tail)
-            if self.ret_arr {
+            if self.ret_arr || self.ret_tupv || self.ret_scalar.is_some() {
                 if let syn::Stmt::Expr(syn::Expr::If(i), _) = st {
                     if i.else_branch.is_none() {
                         if let Some(syn::Stmt::Expr(syn::Expr::Return(r), Some(_))) = i.then_branch.stmts.last() {
@@ -886,7 +1290,7 @@ impl<'a> Cx<'a> {
                     }
                     _ => out.push(format!("SUnsupported {}", q(&toks(e)))),
                 },
-                syn::Stmt::Expr(e, None) if self.ret_arr && k + 1 == n && !matches!(e, syn::Expr::ForLoop(_) | syn::Expr::If(_)) => {
+                syn::Stmt::Expr(e, None) if (self.ret_arr || self.ret_tupv || self.ret_scalar.is_some()) && k + 1 == n && !matches!(e, syn::Expr::ForLoop(_) | syn::Expr::If(_)) => {
                     self.set_ret(e, out);
                 }
                 syn::Stmt::Local(l) => self.local(l, out),
@@ -895,6 +1299,8 @@ impl<'a> Cx<'a> {
                         // a value-less tail (for / if / call returning unit) is a statement
                         if matches!(e, syn::Expr::ForLoop(_) | syn::Expr::If(_)) {
                             self.stmt_expr(e, out);
+                        } else if self.multi.is_some() && matches!(e, syn::Expr::Assign(_) | syn::Expr::MethodCall(_)) && self.stmt_vec(e, out) {
+                            // a unit-valued tail:  self.0 = ..  /  self.add_assign(other)
                         } else {
                             return Some(self.ret(e, out));
                         }
@@ -909,6 +1315,13 @@ impl<'a> Cx<'a> {
     }
 
     fn ret(&mut self, e: &syn::Expr, out: &mut Vec<String>) -> String {
+        if self.multi.is_some() {
+            if self.is_vec(e) {
+                let v = self.vx(e);
+                out.append(&mut self.pre);
+                return format!("RVec {}", v);
+            }
+        }
         if let syn::Expr::Path(p) = e {
             if p.path.segments.len() == 1 && Some(p.path.segments[0].ident.to_string()) == self.self_alias {
                 return "RNone".into(); // the value under construction is self
@@ -935,7 +1348,11 @@ impl<'a> Cx<'a> {
                             continue;
                         }
                     };
-                    if self.fields.contains_key(&name) {
+                    if self.multi.map(|m| m.vfields.contains(&name)).unwrap_or(false) {
+                        let v = self.vx(&f.expr);
+                        let st = format!("SLetV {} {}", q(&format!("self.{}", name)), v);
+                        self.flush(out, st);
+                    } else if self.fields.contains_key(&name) {
                         match &f.expr {
                             syn::Expr::Array(a) => {
                                 let es: Vec<String> = a.elems.iter().map(|x| self.expr(x, None).0).collect();
@@ -1018,6 +1435,7 @@ impl<'a> Cx<'a> {
             p => (p, None),
         };
         match pat {
+            syn::Pat::Ident(id) if id.by_ref.is_none() && id.subpat.is_none() && self.multi.is_some() && self.local_vec(&id.ident.to_string(), init, out) => {}
             syn::Pat::Ident(id) if id.by_ref.is_none() && id.subpat.is_none() => {
                 let name = id.ident.to_string();
                 let want = ann.and_then(|t| ty_of(t, false));
@@ -1167,6 +1585,22 @@ impl<'a> Cx<'a> {
                     }
                 }
             }
+            syn::Pat::Tuple(tp) if self.multi.is_some() && self.tupv_arg(init).is_some() => {
+                // let (a, b) = <tuple of vectors>
+                let src = self.tupv_arg(init).unwrap();
+                let mut names = Vec::new();
+                for p in &tp.elems {
+                    match p {
+                        syn::Pat::Ident(i) => {
+                            names.push(i.ident.to_string());
+                            self.vvars.insert(i.ident.to_string());
+                        }
+                        _ => names.push("_".into()),
+                    }
+                }
+                let st = format!("SUntupV [{}] {}", names.iter().map(|n| q(n)).collect::<Vec<_>>().join("; "), q(&src));
+                self.flush(out, st);
+            }
             syn::Pat::Tuple(tp) => {
                 // let (h, t) = a.split_at(mid);   /   let (h, t) = v.split_at_mut(mid) with v a view
                 if let syn::Expr::MethodCall(m) = init {
@@ -1225,7 +1659,182 @@ impl<'a> Cx<'a> {
         }
     }
 
+    /// `let name = init` where init is vector-valued / a vector alias / a tuple of vectors / an array copy / a scalar call
+    fn local_vec(&mut self, name: &str, init: &syn::Expr, out: &mut Vec<String>) -> bool {
+        // let v = &mut self.<vector field>;
+        if let syn::Expr::Reference(r) = init {
+            if r.mutability.is_some() {
+                if let Some(p) = self.vec_place(&r.expr) {
+                    self.vec_alias.insert(name.to_string(), p);
+                    return true;
+                }
+            }
+        }
+        // let x = if c { ..; v1 } else { ..; v2 };
+        if let syn::Expr::If(i) = init {
+            if let (Some((_, eb)), Some(syn::Stmt::Expr(tv, None))) = (&i.else_branch, i.then_branch.stmts.last()) {
+                if let syn::Expr::Block(bl) = &**eb {
+                    if let Some(syn::Stmt::Expr(ev, None)) = bl.block.stmts.last() {
+                        if self.is_vec(tv) && self.is_vec(ev) {
+                            if let Some(c) = self.cond(&i.cond) {
+                                out.append(&mut self.pre);
+                                let mut th = Vec::new();
+                                let mut el = Vec::new();
+                                let nt = i.then_branch.stmts.len();
+                                let ne = bl.block.stmts.len();
+                                self.stmts_plain(&i.then_branch.stmts[..nt - 1], &mut th);
+                                let v1 = self.vx(tv);
+                                th.append(&mut self.pre);
+                                th.push(format!("SLetV {} {}", q(name), v1));
+                                self.stmts_plain(&bl.block.stmts[..ne - 1], &mut el);
+                                let v2 = self.vx(ev);
+                                el.append(&mut self.pre);
+                                el.push(format!("SLetV {} {}", q(name), v2));
+                                self.vvars.insert(name.to_string());
+                                out.push(format!("SIf {} [{}] [{}]", c, th.join("; "), el.join("; ")));
+                                return true;
+                            }
+                        }
+                    }
+                }
+            }
+        }
+        if self.is_vec(init) {
+            let v = self.vx(init);
+            self.vvars.insert(name.to_string());
+            let st = format!("SLetV {} {}", q(name), v);
+            self.flush(out, st);
+            return true;
+        }
+        if let syn::Expr::Call(c) = init {
+            if let Some(qn) = self.callee_of_call(c) {
+                let args: Vec<&syn::Expr> = c.args.iter().collect();
+                match self.sigs.get(&qn).map(|s| s.ret.clone()) {
+                    Some(Ty::TupVec(_)) => {
+                        if let Some((txt, _)) = self.call(&qn, &args) {
+                            self.tupvars.insert(name.to_string());
+                            let st = format!("SCall (Some {}) {}", q(name), txt);
+                            self.flush(out, st);
+                            return true;
+                        }
+                    }
+                    Some(Ty::Int(i)) => {
+                        if let Some((txt, _)) = self.call(&qn, &args) {
+                            self.vars.insert(name.to_string(), Ty::Int(i));
+                            let st = format!("SCall (Some {}) {}", q(name), txt);
+                            self.flush(out, st);
+                            return true;
+                        }
+                    }
+                    _ => {}
+                }
+            }
+        }
+        // let mut d = <array / slice variable>;
+        if let syn::Expr::Path(_) = init {
+            if let Some((a, t)) = self.array_name(init) {
+                self.vars.insert(name.to_string(), Ty::Arr(t));
+                out.push(format!("SCopyArr {} {}", q(name), q(&a)));
+                return true;
+            }
+        }
+        false
+    }
+
+    /// statements of a block, none of which may produce a value
+    fn stmts_plain(&mut self, stmts: &[syn::Stmt], out: &mut Vec<String>) {
+        if self.stmts(stmts, out).is_some() {
+            out.push("SUnsupported \"value in statement position\"".into());
+        }
+    }
+
+    /// statement forms that only occur in the SIMD files; true if handled
+    fn stmt_vec(&mut self, e: &syn::Expr, out: &mut Vec<String>) -> bool {
+        let m = match self.multi {
+            Some(m) => m,
+            None => return false,
+        };
+        match e {
+            syn::Expr::Assign(a) => {
+                if let Some(p) = self.vec_place(&a.left) {
+                    let v = self.vx(&a.right);
+                    let st = format!("SLetV {} {}", q(&p), v);
+                    self.flush(out, st);
+                    return true;
+                }
+                // data = &bytes[8..];
+                if let (Some((l, _)), Some((a2, lo, hi, _))) = (self.array_name(&a.left), self.range_slice(&a.right)) {
+                    if !matches!(&*a.left, syn::Expr::Index(_)) {
+                        let st = format!("SLetSlice {} {} {} {}", q(&l), q(&a2), lo, hi);
+                        self.flush(out, st);
+                        return true;
+                    }
+                }
+                false
+            }
+            syn::Expr::Binary(b) => {
+                use syn::BinOp::*;
+                let tm = match &b.op {
+                    AddAssign(_) => ("AddAssign", "add_assign"),
+                    SubAssign(_) => ("SubAssign", "sub_assign"),
+                    BitXorAssign(_) => ("BitXorAssign", "bitxor_assign"),
+                    BitOrAssign(_) => ("BitOrAssign", "bitor_assign"),
+                    BitAndAssign(_) => ("BitAndAssign", "bitand_assign"),
+                    _ => return false,
+                };
+                if let (Some(p), Some(qn)) = (self.vec_place(&b.left), m.wrap_traits.get(&(tm.0.to_string(), tm.1.to_string())).cloned()) {
+                    let v = self.vx(&b.right);
+                    let st = format!("SCall None {} [AVecRef {}; AVec {}]", q(&qn), q(&p), v);
+                    self.flush(out, st);
+                    return true;
+                }
+                false
+            }
+            syn::Expr::MethodCall(mc) if toks(&mc.receiver) == "self" => {
+                let qn = self.qual(self.owner, &mc.method.to_string());
+                let mut args: Vec<&syn::Expr> = Vec::new();
+                if self.owner == Owner::Wrap {
+                    args.push(&*mc.receiver);
+                }
+                args.extend(mc.args.iter());
+                if let Some((txt, _)) = self.call(&qn, &args) {
+                    let st = format!("SCall None {}", txt);
+                    self.flush(out, st);
+                    return true;
+                }
+                false
+            }
+            // if let Some(d) = a.get(..n) { body }
+            syn::Expr::If(i) if matches!(&*i.cond, syn::Expr::Let(_)) && i.else_branch.is_none() => {
+                if let syn::Expr::Let(l) = &*i.cond {
+                    if let (syn::Pat::TupleStruct(ts), syn::Expr::MethodCall(g)) = (&*l.pat, &*l.expr) {
+                        if toks(&ts.path) == "Some" && ts.elems.len() == 1 && g.method == "get" && g.args.len() == 1 {
+                            if let (syn::Pat::Ident(x), Some((a, t)), syn::Expr::Range(r)) = (&ts.elems[0], self.array_name(&g.receiver), &g.args[0]) {
+                                if let (None, Some(end), syn::RangeLimits::HalfOpen(_)) = (&r.start, &r.end, &r.limits) {
+                                    if let Some((n, _)) = Self::lit(end) {
+                                        let xs = x.ident.to_string();
+                                        self.vars.insert(xs.clone(), Ty::Arr(t));
+                                        self.lens.insert(xs.clone(), n as usize);
+                                        let mut body = Vec::new();
+                                        self.stmts_plain(&i.then_branch.stmts, &mut body);
+                                        out.push(format!("SIfPrefix {} {} {} [{}]", q(&xs), q(&a), n, body.join("; ")));
+                                        return true;
+                                    }
+                                }
+                            }
+                        }
+                    }
+                }
+                false
+            }
+            _ => false,
+        }
+    }
+
     fn stmt_expr(&mut self, e: &syn::Expr, out: &mut Vec<String>) {
+        if self.stmt_vec(e, out) {
+            return;
+        }
         match e {
             syn::Expr::Assign(a) if self.array_name(&a.left).is_some() && self.array_name(&a.right).is_some() && !matches!(&*a.left, syn::Expr::Index(_)) => {
                 let (l, _) = self.array_name(&a.left).unwrap();
@@ -1537,7 +2146,14 @@ impl<'a> Cx<'a> {
 }
 
 /// Translate the listed functions of `impl <self_ty>` in `file`; emits a Coq file defining `src_fns`.
-pub fn translate(file: &syn::File, rel: &str, self_ty: &str, wanted: &[&str], externals: &[&str], consts_in: &[(&str, u128)], listname: &str, sub: Option<SubObj>) -> String {
+struct FnRef<'a> {
+    sig: &'a syn::Signature,
+    attrs: &'a [syn::Attribute],
+    block: &'a syn::Block,
+}
+
+/// `free`: free functions of the file to translate as well (they take no self)
+pub fn translate(file: &syn::File, rel: &str, self_ty: &str, wanted: &[&str], free: &[&str], externals: &[&str], consts_in: &[(&str, u128)], listname: &str, sub: Option<SubObj>) -> String {
     let mut consts: HashMap<String, u128> = consts_in.iter().map(|(k, v)| (k.to_string(), *v)).collect();
     for it in &file.items {
         if let syn::Item::Const(c) = it {
@@ -1589,7 +2205,8 @@ pub fn translate(file: &syn::File, rel: &str, self_ty: &str, wanted: &[&str], ex
     }
     // signatures of every function of the inherent impl
     let mut sigs: HashMap<String, Sig> = HashMap::new();
-    let mut bodies: Vec<&syn::ImplItemFn> = Vec::new();
+    let mut bodies: Vec<FnRef> = Vec::new();
+    let mut impl_cfgs: HashMap<String, Vec<String>> = HashMap::new(); // cfg attributes on the impl block a function sits in
     for it in &file.items {
         if let syn::Item::Impl(im) = it {
             if toks(&im.self_ty) != self_ty {
@@ -1637,16 +2254,48 @@ pub fn translate(file: &syn::File, rel: &str, self_ty: &str, wanted: &[&str], ex
                     if let (true, Some(ret)) = (ok, ret) {
                         sigs.insert(f.sig.ident.to_string(), Sig { params, ret });
                     }
-                    bodies.push(f);
+                    bodies.push(FnRef { sig: &f.sig, attrs: &f.attrs, block: &f.block });
+                    for a in &im.attrs {
+                        if a.path().is_ident("cfg") || a.path().is_ident("cfg_attr") {
+                            impl_cfgs.entry(f.sig.ident.to_string()).or_default().push(a.meta.to_token_stream().to_string());
+                        }
+                    }
                 }
             }
+        }
+    }
+    // free functions of the file
+    for it in &file.items {
+        if let syn::Item::Fn(f) = it {
+            if !free.contains(&f.sig.ident.to_string().as_str()) {
+                continue;
+            }
+            let mut params = Vec::new();
+            let mut ok = true;
+            for a in &f.sig.inputs {
+                if let syn::FnArg::Typed(t) = a {
+                    match (&*t.pat, ty_of(&t.ty, true)) {
+                        (syn::Pat::Ident(i), Some(ty)) => params.push((i.ident.to_string(), ty)),
+                        _ => ok = false,
+                    }
+                }
+            }
+            let ret = match &f.sig.output {
+                syn::ReturnType::Default => Some(Ty::Unit),
+                syn::ReturnType::Type(_, t) => ty_of(t, false),
+            };
+            if let (true, Some(ret)) = (ok, ret) {
+                sigs.insert(f.sig.ident.to_string(), Sig { params, ret });
+            }
+            bodies.push(FnRef { sig: &f.sig, attrs: &f.attrs, block: &f.block });
         }
     }
     let mut out = String::new();
     let _ = writeln!(out, "(* GENERATED by tools/srcfacts (rustlite.rs) from {} — do not edit. *)", rel);
     let _ = writeln!(out, "From Coq Require Import String List NArith.\nFrom HW Require Import Word.\nFrom HW.Facts Require Import RustLite.\nImport ListNotations.\nLocal Open Scope string_scope.\nLocal Open Scope N_scope.\n");
     let mut names = Vec::new();
-    for w in wanted {
+    let all_wanted: Vec<&str> = wanted.iter().chain(free.iter()).cloned().collect();
+    for w in &all_wanted {
         let f = match bodies.iter().find(|f| f.sig.ident == w) {
             Some(f) => f,
             None => {
@@ -1656,7 +2305,10 @@ pub fn translate(file: &syn::File, rel: &str, self_ty: &str, wanted: &[&str], ex
             }
         };
         let sig = sigs.get(*w);
-        let mut cx = Cx { self_ty, sigs: &sigs, fields: &fields, sfields: &sfields, consts: &consts, ret_opt: false, valias: HashMap::new(), arr_alias: HashMap::new(), self_alias: None, sub: &sub, chunks: HashMap::new(), vars: HashMap::new(), lens: HashMap::new(), alias: HashMap::new(), tmp: 0, pre: Vec::new(), views: std::collections::HashSet::new(), zips: HashMap::new(), ret_arr: false };
+        let dup = bodies.iter().filter(|f| f.sig.ident == w).count() > 1;
+        let mut cfgs = if free.contains(w) { cfg_inside(&[], f.block) } else { cfg_inside(f.attrs, f.block) };
+        cfgs.extend(impl_cfgs.get(*w).cloned().unwrap_or_default());
+        let mut cx = Cx { self_ty, sigs: &sigs, fields: &fields, sfields: &sfields, consts: &consts, ret_opt: false, multi: None, owner: Owner::Hash, vvars: Default::default(), tupvars: Default::default(), vec_alias: HashMap::new(), ret_tupv: false, valias: HashMap::new(), arr_alias: HashMap::new(), self_alias: None, sub: &sub, chunks: HashMap::new(), vars: HashMap::new(), lens: HashMap::new(), alias: HashMap::new(), tmp: 0, pre: Vec::new(), views: std::collections::HashSet::new(), zips: HashMap::new(), ret_arr: false, ret_scalar: None };
         let mut params = Vec::new();
         let mut body: Vec<String> = Vec::new();
         match sig {
@@ -1681,13 +2333,26 @@ pub fn translate(file: &syn::File, rel: &str, self_ty: &str, wanted: &[&str], ex
             }
             None => body.push("SUnsupported \"signature outside the fragment\"".into()),
         }
+        if dup {
+            body.push("SUnsupported \"several functions of this name in the impl (conditional compilation?)\"".into());
+        }
+        for c in &cfgs {
+            body.push(format!("SUnsupported {}", q(&format!("conditional compilation inside the function: {}", c))));
+        }
         // a function that returns an array and contains `return`: results go through the variable %ret
         let has_return = toks(&f.block).contains("return ");
         cx.ret_arr = has_return && matches!(sig.map(|s| &s.ret), Some(Ty::Arr(_)));
         cx.ret_opt = matches!(sig.map(|s| &s.ret), Some(Ty::OptSlice));
+        cx.ret_scalar = match sig.map(|s| &s.ret) {
+            Some(Ty::Int(i)) if has_return => Some(*i),
+            _ => None,
+        };
         let ret = if cx.ret_opt {
             cx.block(&f.block, &mut body);
             "RVar \"%ret\"".to_string()
+        } else if cx.ret_scalar.is_some() {
+            cx.block(&f.block, &mut body);
+            "RVal (EVar \"%ret\")".to_string()
         } else if cx.ret_arr {
             cx.block(&f.block, &mut body);
             "RVarArr \"%ret\"".to_string()
@@ -1700,6 +2365,284 @@ pub fn translate(file: &syn::File, rel: &str, self_ty: &str, wanted: &[&str], ex
     }
     let _ = writeln!(out, "Definition {}_fns : list (string * fndef) :=\n  [{}].\n", listname, names.iter().map(|n| format!("({}, {}_{})", q(n), listname, n)).collect::<Vec<_>>().join(";\n   "));
     // the functions the translated ones call but that are not translated (must be exactly the declared externals)
+    let _ = writeln!(out, "Definition {}_externals : list string := [{}].", listname, externals.iter().map(|e| q(e)).collect::<Vec<_>>().join("; "));
+    out
+}
+
+
+/// One function of a SIMD backend file, with the impl it sits in.
+struct MFn<'a> {
+    qname: String,
+    owner: Owner,
+    f_sig: &'a syn::Signature,
+    attrs: &'a [syn::Attribute],
+    block: &'a syn::Block,
+    impl_cfgs: Vec<String>,
+}
+
+/// Translate a SIMD backend file (hasher struct + vector wrapper type + free helper functions) into RustLite.
+/// Functions are keyed by qualified names: "<Hash>::f", "<Wrap>::f", "<Wrap>::<Trait>::f", "f".
+pub fn translate_multi(file: &syn::File, rel: &str, hash_ty: &str, wrap_ty: &str, raw_tys: &[&str], wanted_hash: &[&str], skip_wrap: &[&str], externals: &[&str], ext_file: Option<&syn::File>, consts_in: &[(&str, u128)], listname: &str, sub: Option<SubObj>) -> String {
+    let consts: HashMap<String, u128> = consts_in.iter().map(|(k, v)| (k.to_string(), *v)).collect();
+    let set_vec_tys = |with_self: bool| {
+        VEC_TYS.with(|v| {
+            let mut v = v.borrow_mut();
+            v.clear();
+            v.push(wrap_ty.to_string());
+            for r in raw_tys {
+                v.push(r.to_string());
+            }
+            if with_self {
+                v.push("Self".to_string());
+            }
+        })
+    };
+    set_vec_tys(false);
+    // vector fields of the hasher
+    let mut vfields = Vec::new();
+    for it in &file.items {
+        if let syn::Item::Struct(st) = it {
+            if st.ident == hash_ty {
+                for f in &st.fields {
+                    if let (Some(id), Some(Ty::Vec)) = (&f.ident, ty_of(&f.ty, false)) {
+                        vfields.push(id.to_string());
+                    }
+                }
+            }
+        }
+    }
+    // every function of the file
+    let mut fns: Vec<MFn> = Vec::new();
+    let mut wrap_traits: HashMap<(String, String), String> = HashMap::new();
+    for it in &file.items {
+        match it {
+            syn::Item::Fn(f) => fns.push(MFn { qname: f.sig.ident.to_string(), owner: Owner::Free, f_sig: &f.sig, attrs: &f.attrs, block: &f.block, impl_cfgs: Vec::new() }),
+            syn::Item::Impl(im) => {
+                let st = toks(&im.self_ty);
+                let owner = if st == hash_ty {
+                    Owner::Hash
+                } else if st == wrap_ty {
+                    Owner::Wrap
+                } else {
+                    continue;
+                };
+                let tr = im.trait_.as_ref().map(|(_, p, _)| p.segments.last().map(|s| s.ident.to_string()).unwrap_or_default());
+                let cfgs: Vec<String> = im.attrs.iter().filter(|a| a.path().is_ident("cfg") || a.path().is_ident("cfg_attr")).map(|a| a.meta.to_token_stream().to_string()).collect();
+                for ii in &im.items {
+                    if let syn::ImplItem::Fn(f) = ii {
+                        let name = f.sig.ident.to_string();
+                        let qname = match (&tr, owner) {
+                            (None, Owner::Hash) => format!("{}::{}", hash_ty, name),
+                            (None, _) => format!("{}::{}", wrap_ty, name),
+                            (Some(_), Owner::Hash) => continue, // the trait impls of the hasher forward to the inherent functions (FactsC05)
+                            (Some(t), _) => {
+                                if skip_wrap.contains(&t.as_str()) {
+                                    continue;
+                                }
+                                let qn = format!("{}::{}::{}", wrap_ty, t, name);
+                                wrap_traits.insert((t.clone(), name.clone()), qn.clone());
+                                qn
+                            }
+                        };
+                        if owner == Owner::Hash && !wanted_hash.contains(&name.as_str()) {
+                            continue;
+                        }
+                        if owner == Owner::Wrap && tr.is_none() && skip_wrap.contains(&name.as_str()) {
+                            continue;
+                        }
+                        fns.push(MFn { qname, owner, f_sig: &f.sig, attrs: &f.attrs, block: &f.block, impl_cfgs: cfgs.clone() });
+                    }
+                }
+            }
+            _ => {}
+        }
+    }
+    // signatures
+    let mut sigs: HashMap<String, Sig> = HashMap::new();
+    let mut wrap_mut = std::collections::HashSet::new();
+    let mut tuple_pats: HashMap<String, Vec<(String, Vec<String>)>> = HashMap::new();
+    for mf in &fns {
+        set_vec_tys(mf.owner == Owner::Wrap);
+        let mut params = Vec::new();
+        let mut ok = true;
+        let mut k = 0;
+        for a in &mf.f_sig.inputs {
+            match a {
+                syn::FnArg::Receiver(r) => {
+                    if mf.owner == Owner::Wrap {
+                        params.push(("self".to_string(), Ty::Vec));
+                        if r.mutability.is_some() && r.reference.is_some() {
+                            wrap_mut.insert(mf.qname.clone());
+                        }
+                    }
+                }
+                syn::FnArg::Typed(t) => {
+                    let ty = ty_of(&t.ty, true);
+                    match (&*t.pat, ty) {
+                        (syn::Pat::Ident(i), Some(ty)) => params.push((i.ident.to_string(), ty)),
+                        (syn::Pat::Tuple(tp), Some(Ty::TupVec(n))) if tp.elems.len() == n => {
+                            let pn = format!("%p{}", k);
+                            let mut names = Vec::new();
+                            for e in &tp.elems {
+                                match e {
+                                    syn::Pat::Ident(i) => names.push(i.ident.to_string()),
+                                    _ => names.push("_".into()),
+                                }
+                            }
+                            tuple_pats.entry(mf.qname.clone()).or_default().push((pn.clone(), names));
+                            params.push((pn, Ty::TupVec(n)));
+                        }
+                        _ => ok = false,
+                    }
+                    k += 1;
+                }
+            }
+        }
+        let ret = match &mf.f_sig.output {
+            syn::ReturnType::Default => Some(Ty::Unit),
+            syn::ReturnType::Type(_, t) => {
+                if mf.owner == Owner::Hash && (toks(t) == "Self" || toks(t) == hash_ty) {
+                    Some(Ty::Unit)
+                } else {
+                    ty_of(t, false)
+                }
+            }
+        };
+        if let (true, Some(ret)) = (ok, ret) {
+            sigs.insert(mf.qname.clone(), Sig { params, ret });
+        }
+    }
+    set_vec_tys(false);
+    // free functions of other files that the translated ones call: their signatures; their meaning is the interpreter's [ext]
+    if let Some(ef) = ext_file {
+        for it in &ef.items {
+            if let syn::Item::Fn(f) = it {
+                let n = f.sig.ident.to_string();
+                if !externals.contains(&n.as_str()) {
+                    continue;
+                }
+                let mut params = Vec::new();
+                let mut ok = true;
+                for a in &f.sig.inputs {
+                    if let syn::FnArg::Typed(t) = a {
+                        match (&*t.pat, ty_of(&t.ty, false)) {
+                            (syn::Pat::Ident(i), Some(ty)) => params.push((i.ident.to_string(), ty)),
+                            _ => ok = false,
+                        }
+                    }
+                }
+                let ret = match &f.sig.output {
+                    syn::ReturnType::Default => Some(Ty::Unit),
+                    syn::ReturnType::Type(_, t) => ty_of(t, false),
+                };
+                if let (true, Some(ret)) = (ok, ret) {
+                    sigs.insert(n, Sig { params, ret });
+                }
+            }
+        }
+    }
+    let multi = Multi { hash_ty: hash_ty.to_string(), wrap_ty: wrap_ty.to_string(), vfields, wrap_traits, wrap_mut };
+    let fields: HashMap<String, (Ity, usize)> = HashMap::new();
+    let sfields: HashMap<String, Ity> = HashMap::new();
+    let mut out = String::new();
+    let _ = writeln!(out, "(* GENERATED by tools/srcfacts (rustlite.rs, translate_multi) from {} — do not edit. *)", rel);
+    let _ = writeln!(out, "From Coq Require Import String List NArith.\nFrom HW Require Import Word.\nFrom HW.Facts Require Import RustLite.\nImport ListNotations.\nLocal Open Scope string_scope.\nLocal Open Scope N_scope.\n");
+    let mut names: Vec<(String, String)> = Vec::new();
+    for w in wanted_hash {
+        let qn = format!("{}::{}", hash_ty, w);
+        if !fns.iter().any(|f| f.qname == qn) {
+            let dn = format!("{}_{}", listname, qn.replace("::", "_"));
+            let _ = writeln!(out, "Definition {} : fndef := {{| f_params := []; f_body := [SUnsupported \"function not found\"]; f_ret := RNone |}}.\n", dn);
+            names.push((qn, dn));
+        }
+    }
+    let mut seen = std::collections::HashSet::new();
+    for mf in &fns {
+        let dn = format!("{}_{}", listname, mf.qname.replace("::", "_"));
+        let dup = fns.iter().filter(|f| f.qname == mf.qname).count() > 1;
+        if !seen.insert(mf.qname.clone()) {
+            continue;
+        }
+        set_vec_tys(mf.owner == Owner::Wrap);
+        let sig = sigs.get(&mf.qname);
+        let mut cfgs = cfg_inside(mf.attrs, mf.block);
+        cfgs.extend(mf.impl_cfgs.iter().cloned());
+        let self_ty = if mf.owner == Owner::Wrap { wrap_ty } else { hash_ty };
+        let mut cx = Cx { self_ty, sigs: &sigs, fields: &fields, sfields: &sfields, consts: &consts, ret_opt: false, multi: Some(&multi), owner: mf.owner, vvars: Default::default(), tupvars: Default::default(), vec_alias: HashMap::new(), ret_tupv: false, valias: HashMap::new(), arr_alias: HashMap::new(), self_alias: None, sub: &sub, chunks: HashMap::new(), vars: HashMap::new(), lens: HashMap::new(), alias: HashMap::new(), tmp: 0, pre: Vec::new(), views: std::collections::HashSet::new(), zips: HashMap::new(), ret_arr: false, ret_scalar: None };
+        let mut params = Vec::new();
+        let mut body: Vec<String> = Vec::new();
+        match sig {
+            Some(sig) => {
+                let typed: Vec<&syn::FnArg> = mf.f_sig.inputs.iter().collect();
+                for (n, t) in sig.params.iter() {
+                    let kind = match t {
+                        Ty::Int(_) => "KVal",
+                        Ty::Arr(_) => "KArr",
+                        Ty::Idx => "KVal", // a usize passed by value
+                        Ty::Vec => "KVec",
+                        Ty::TupVec(_) => "KTupV",
+                        _ => "KVal",
+                    };
+                    match t {
+                        Ty::Vec => {
+                            cx.vvars.insert(n.clone());
+                        }
+                        Ty::TupVec(_) => {
+                            cx.tupvars.insert(n.clone());
+                        }
+                        Ty::Idx => {
+                            cx.vars.insert(n.clone(), Ty::Int(Ity::Usz));
+                        }
+                        _ => {
+                            cx.vars.insert(n.clone(), t.clone());
+                        }
+                    }
+                    params.push(format!("({}, {})", q(n), kind));
+                }
+                for a in typed {
+                    if let syn::FnArg::Typed(pt) = a {
+                        if let syn::Pat::Ident(i) = &*pt.pat {
+                            if let Some(len) = arr_len(&pt.ty) {
+                                cx.lens.insert(i.ident.to_string(), len);
+                            } else if toks(&pt.ty) == "Key" {
+                                cx.lens.insert(i.ident.to_string(), 4);
+                            }
+                        }
+                    }
+                }
+                for (pn, ns) in tuple_pats.get(&mf.qname).cloned().unwrap_or_default() {
+                    for n in &ns {
+                        cx.vvars.insert(n.clone());
+                    }
+                    body.push(format!("SUntupV [{}] {}", ns.iter().map(|n| q(n)).collect::<Vec<_>>().join("; "), q(&pn)));
+                }
+            }
+            None => body.push("SUnsupported \"signature outside the fragment\"".into()),
+        }
+        if dup {
+            body.push("SUnsupported \"several functions of this name (conditional compilation?)\"".into());
+        }
+        for c in &cfgs {
+            body.push(format!("SUnsupported {}", q(&format!("conditional compilation: {}", c))));
+        }
+        let has_return = toks(mf.block).contains("return ");
+        cx.ret_arr = has_return && matches!(sig.map(|s| &s.ret), Some(Ty::Arr(_)));
+        cx.ret_tupv = matches!(sig.map(|s| &s.ret), Some(Ty::TupVec(_)));
+        let ret = if cx.ret_tupv {
+            cx.block(mf.block, &mut body);
+            "RVar \"%ret\"".to_string()
+        } else if cx.ret_arr {
+            cx.block(mf.block, &mut body);
+            "RVarArr \"%ret\"".to_string()
+        } else {
+            cx.block(mf.block, &mut body).unwrap_or_else(|| "RNone".into())
+        };
+        let _ = writeln!(out, "(* {} :: {} :: {} *)", rel, mf.qname, toks(mf.f_sig));
+        let _ = writeln!(out, "Definition {} : fndef :=\n  {{| f_params := [{}];\n     f_body := [\n       {}];\n     f_ret := {} |}}.\n", dn, params.join("; "), body.join(";\n       "), ret);
+        names.push((mf.qname.clone(), dn));
+    }
+    set_vec_tys(false);
+    let _ = writeln!(out, "Definition {}_fns : list (string * fndef) :=\n  [{}].\n", listname, names.iter().map(|(n, d)| format!("({}, {})", q(n), d)).collect::<Vec<_>>().join(";\n   "));
     let _ = writeln!(out, "Definition {}_externals : list string := [{}].", listname, externals.iter().map(|e| q(e)).collect::<Vec<_>>().join("; "));
     out
 }
